@@ -105,6 +105,10 @@ func (prom *Prometheus) RangeQuery(ctx context.Context, expr string, params Rang
 
 	var slices []TimeRange
 	queryStep := (time.Hour * 2).Round(step)
+	if queryStep <= 0 {
+		// Round() returns zero if step is more than twice as big as our slice size.
+		queryStep = step
+	}
 	if queryStep > lookback {
 		queryStep = lookback
 		slices = append(slices, TimeRange{Start: start, End: end})
